@@ -220,10 +220,21 @@ def r4(ctx):
     due = []
     for bi, t, e in g.switches():
         c = comparison(e)
-        if c and fmt_short(c[1]) == "self.pending.0.replace" and fmt_short(c[2]) == "Instant::now()" and c[0] in ("<=", "<"):
-            due.append((bi, g.bool_edges(bi)[1]))
-        if c and fmt_short(c[2]) == "self.pending.0.replace" and fmt_short(c[1]) == "Instant::now()" and c[0] in (">=", ">"):
-            due.append((bi, g.bool_edges(bi)[1]))
+        if not c or c[0] not in ("<", "<=", ">", ">="):
+            continue
+        is_rep = lambda x: fmt_short(x).endswith(".replace") and "self.pending" in fmt_short(x)
+        is_now = lambda x: fmt_short(x) == "Instant::now()"
+        if is_rep(c[1]) and is_now(c[2]):
+            op = c[0]
+        elif is_rep(c[2]) and is_now(c[1]):
+            op = {"<": ">", "<=": ">=", ">": "<", ">=": "<="}[c[0]]
+        else:
+            continue
+        # `replace op now`: the node is due where replace <= now holds
+        f_, tr_ = g.bool_edges(bi)
+        edge = tr_ if op in ("<=", "<") else f_
+        if (bi, edge) not in due:
+            due.append((bi, edge))
     ws = node_writes(b, p)
     ins = [(bi, t) for bi, t in b.calls() if short(t.callee() or "").endswith("bucket::KBucket::insert")]
     r = b.reachable(0, removed_edges=due)
